@@ -334,6 +334,8 @@ def gen_history(run, idx, max_regs=8):
             names = ["x-" + base[0] + "-ext", "x-" + base[1] + "-ext", "x-" + base[2], EXTDEF + new_uuid(rng),
                      rng.choice(BUILTIN_NAMES[k])]
         pool[k] = names
+    # '-ext' in the middle / followed by more characters (the 2.1 rule wants it at the END)
+    pool["extension"].append(rng.choice(["x-%s-extra", "x-ext-%s", "x-%s-ext-", "x-%s-ext-data", "x-%s-extension"]) % base[1])
     pool["object"].append(rng.choice(["grouping", "note", "opinion", "incident", "location"]))   # built-in in 2.1 only: free in 2.0
     extpool = [pool["extension"][3], EXTDEF + new_uuid(rng)]      # extension ids shared by extension_name= and CustomExtension
     pool["extension"].append(extpool[1])
@@ -590,6 +592,9 @@ def oracle_history(case, obs, builtin):
                     viol("registration of %r as %s %s accepted although the name was taken (by %s)"
                          % (o["name"], o["ver"], o["kind"], "a built-in" if key in builtin else "an earlier registration"), i, tag="dup-accepted")
                 if o["kind"] == "extension":
+                    if o["ver"] == "2.1" and not (o["name"].endswith("-ext") or o["name"].startswith(EXTDEF)):
+                        viol("2.1 extension name %r neither ends with '-ext' nor starts with 'extension-definition--' and was "
+                             "accepted" % o["name"], i, tag="bad-ext-suffix-accepted")
                     if not ext_name_must(o["name"], o["ver"]):
                         viol("extension name %r (%s) breaks the naming rule and was accepted" % (o["name"], o["ver"]), i,
                              classify_type_name(o["name"], o["ver"]), tag="bad-type-accepted")
@@ -1101,6 +1106,21 @@ def shrink_violations(run, builtin, limit=3):
         run.coverage.setdefault("shrunk", []).append({"tag": v.tag, "from": len(r["case"]["ops"]), "to": len(small["ops"]), "runs": spent})
 
 
+def oracle_cross_version_ext(case, res):
+    out = []
+    if not isinstance(res, dict) or "crash" in res or "timeout" in res or "register" in res:
+        return [Violation("cross-version extension case did not run: %s" % json.dumps(res)[:300], {"kind": "cross_version_ext", "case": case})]
+    for key, st in sorted(res.items()):
+        same = key.split(": ")[1].split(" ")[0] == key.split(" in a ")[1].split(" ")[0]
+        if same and st != "ok":
+            out.append(Violation("extension instance of the object's own version not accepted (%s): %s" % (key, st),
+                                 {"kind": "cross_version_ext", "case": case, "observed": {key: st}}))
+        if not same and not (st.startswith("exc:") or st == "ok"):
+            out.append(Violation("an extension instance of the OTHER version's class is taken as it is (%s): %s -- registrations "
+                                 "are version-scoped" % (key, st), {"kind": "cross_version_ext", "case": case, "observed": {key: st}}))
+    return out
+
+
 def oracle_marking_pairs(case, res):
     out = []
     if not isinstance(res, dict) or "crash" in res or "timeout" in res:
@@ -1424,6 +1444,12 @@ def check(run):
         run.count(c, nontrivial=True)
         run.violations += oracle_marking_pairs(c, r)
 
+    # ---- the same extension name under both versions: instances do not cross
+    xcases = [{"k": "cross_version_ext", "name": "x-%s-ext" % gen_valid_type(run.rng)} for _ in range(6 if thorough else 2)]
+    for c, r in zip(xcases, run_histories(xcases)):
+        run.count(c, nontrivial=True)
+        run.violations += oracle_cross_version_ext(c, r)
+
     # ---- the class tables the decorators build (custom types inherit)
     builder_ok = model_ok and os.path.exists(os.path.join(common.COQ, "Model", "RegistryBuilder.vo"))
     check_inherit(run, 200 if thorough else 16, builder_ok)
@@ -1508,6 +1534,11 @@ def replay(payload):
                     vs += oracle_dump(o, x["cls"])
         else:
             vs.append(Violation("did not run: %s" % res, r))
+    elif kind == "cross_version_ext":
+        case = dict(r["case"], k="cross_version_ext")
+        res = run_histories([case])[0]
+        print("replay cross-version extension instances: %s" % json.dumps(res)[:1500])
+        vs = oracle_cross_version_ext(case, res)
     elif kind == "marking_pairs":
         case = dict(r["case"], k="marking_pairs")
         res = run_histories([case])[0]
